@@ -34,32 +34,38 @@ fn c20_guard_vec2_f32_half_range() {
     assert!(false);
 }
 
-// The uninterpreted-function model itself: it is deterministic (same bits -> same value) and it does
-// not constrain distinct arguments (both outcomes reachable) -- so the "uf" harnesses are not vacuous.
+// The uninterpreted-function model itself: it is deterministic on seeded arguments (same bits -> same
+// value, also across seed slots) and it does not constrain distinct arguments (both outcomes reachable)
+// -- so the "uf" harnesses are not vacuous.
 #[kani::proof]
 fn c20_uf_model_deterministic() {
     let a: u32 = kani::any();
     let b: u32 = kani::any();
-    let r1 = uf8(a, 1, 2, 3);
-    let r2 = uf8(b, 1, 2, 3);
-    let r3 = uf8(a, 1, 2, 3);
+    uf4_seed(a, 1, 2, 3);
+    uf4_seed(b, 1, 2, 3);
+    let r1 = uf4_look(a, 1, 2, 3);
+    let r2 = uf4_look(b, 1, 2, 3);
+    let r3 = uf4_look(a, 1, 2, 3);
     assert!(r1 == r3);
     assert!(a != b || r1 == r2);
 }
 #[kani::proof]
 fn c20_guard_uf_model_unconstrained() {
-    // must FAIL: two calls with different arguments may return different values
+    // must FAIL: two seeded calls with different arguments may return different values
     let a: u32 = kani::any();
     let b: u32 = kani::any();
-    let r1 = uf8(a, 0, 0, 0);
-    let r2 = uf8(b, 0, 0, 0);
+    uf4_seed(a, 0, 0, 0);
+    uf4_seed(b, 0, 0, 0);
+    let r1 = uf4_look(a, 0, 0, 0);
+    let r2 = uf4_look(b, 0, 0, 0);
     assert!(r1 == r2);
 }
 #[kani::proof]
-#[kani::stub(<f32 as RelativeEq>::relative_eq, uf8_f32_relative_eq)]
+#[kani::stub(<f32 as RelativeEq>::relative_eq, uf4_f32_relative_eq)]
 fn c20_guard_uf_relative_eq_not_constant() {
     // must FAIL: under the stub the scalar predicate is not forced to any particular value
     let a: f32 = kani::any();
     let b: f32 = kani::any();
+    uf4_seed(a.to_bits(), b.to_bits(), 0, 0);
     assert!(RelativeEq::relative_eq(&a, &b, 0.0, 0.0));
 }
